@@ -2,7 +2,9 @@ package props
 
 import (
 	"fmt"
+	"github.com/go-kid/ioc/app"
 	"github.com/go-kid/ioc/container/processors"
+	"github.com/go-kid/ioc/container/support"
 	"math"
 
 	"verifharness/core"
@@ -48,7 +50,67 @@ func mayFollow(a, b part) bool {
 	return a.ord <= b.ord
 }
 
+// ownRegistry: an application assembled by hand with a registry of its own and nothing else replaced
+// (app.NewApp().Run(SetRegistry(support.NewRegistry()), SetComponents(...)), as performance_analyst does): its
+// runners are created and run once each, in order; a failing one makes Run fail.
+func (p c13) ownRegistry(c *core.Ctx) {
+	log := mon.NewLifecycle()
+	n := 1 + c.Rng.Intn(5)
+	failAt := -1
+	if c.Rng.Intn(3) == 0 {
+		failAt = c.Rng.Intn(n)
+	}
+	var comps []any
+	ords := c.Rng.Perm(n)
+	for i := 0; i < n; i++ {
+		comps = append(comps, &world.TopRunner{Nm: fmt.Sprintf("top-runner-%d", i), Ord: ords[i], Log: log, Fail: ords[i] == failAt})
+	}
+	ops := []app.SettingOption{app.SetLogger(world.Logger), app.SetRegistry(support.NewRegistry()), app.SetComponents(comps...)}
+	if c.Rng.Intn(2) == 0 {
+		ops = []app.SettingOption{app.SetRegistry(support.NewRegistry()), app.SetLogger(world.Logger), app.SetComponents(comps...)}
+	}
+	var err error
+	var pan any
+	func() {
+		defer func() { pan = recover() }()
+		err = app.NewApp().Run(ops...)
+	}()
+	c.Count("starts", 1)
+	c.Count("starts_with_a_registry_of_their_own", 1)
+	if pan != nil {
+		c.Fail("", fmt.Sprintf("application with its own registry: panic %v", pan), nil)
+		return
+	}
+	var seq []int
+	for _, e := range log.Events() {
+		if e.Kind == "run" {
+			var k int
+			fmt.Sscanf(e.Who, "top-runner-%d", &k)
+			seq = append(seq, ords[k])
+		}
+	}
+	want := n
+	if failAt >= 0 {
+		want = failAt + 1
+	}
+	ok := len(seq) == want
+	for i := range seq {
+		if seq[i] != i {
+			ok = false
+		}
+	}
+	if !ok || (failAt >= 0) != (err != nil) {
+		c.Fail("", fmt.Sprintf("application with its own registry and %d ordered runners (failing position: %d): the runners ran in order positions %v, Run returned %v", n, failAt, seq, err), nil)
+		return
+	}
+	c.Nontrivial(fmt.Sprintf("ownregistry|%d|%d|%v", n, failAt, ords))
+}
+
 func (p c13) Run(c *core.Ctx) {
+	if c.Index%40 == 13 {
+		p.ownRegistry(c)
+		return
+	}
 	// in a fifth of the cases a post-processor exposes (some of) the runners through decorators - a tracing
 	// wrapper around each - which forward Run and the ordering role: every decorated runner still runs once
 	decorate := c.Rng.Intn(5) == 0
@@ -185,6 +247,12 @@ func (p c13) Run(c *core.Ctx) {
 		}
 		extra = append(extra, world.NewDecorator(names...))
 		c.Count("runners_exposed_through_decorators", len(names))
+	}
+	if c.Rng.Intn(5) == 0 {
+		// a factory post-processor that looks at the registered components and at the definitions known so far
+		// when it is invoked (a module catalogue): looking changes nothing
+		extra = append(extra, &world.CatalogFactoryPP{})
+		c.Count("starts_with_a_catalogue_factory_post_processor", 1)
 	}
 	if c.Rng.Intn(6) == 0 {
 		// the library's exported by-type resolver registered next to the default one: every runner is still one
